@@ -123,6 +123,21 @@ Lemma n_train_floor keys thr min_s :
   0 <= n_train keys thr min_s /\ min_s <= Z.of_nat (length keys) - n_train keys thr min_s.
 Proof. unfold n_train. lia. Qed.
 
+(* unless the min_samples floor takes over, the new proposal is trained only on samples at or above the threshold;
+   when the floor takes over, it is trained on exactly min_samples *)
+Lemma n_train_sorted keys thr min_s :
+  (forall i j, (i <= j < length keys)%nat -> nth i keys 0 <= nth j keys 0) ->
+  existsb (fun k => thr <=? k) keys = true ->
+  (Z.of_nat (argmax_ge_key keys thr) <= Z.of_nat (length keys) - min_s ->
+     forall j, n_train keys thr min_s <= Z.of_nat j < Z.of_nat (length keys) -> thr <= nth j keys 0)
+  /\ (Z.of_nat (length keys) - min_s < Z.of_nat (argmax_ge_key keys thr) ->
+     Z.of_nat (length keys) - n_train keys thr min_s = min_s).
+Proof.
+  intros Hs He. destruct (argmax_ge_key_sorted keys thr Hs He) as [H1 _]. split.
+  - intros Hle j Hj. apply H1. unfold n_train in Hj. lia.
+  - intros Hlt. unfold n_train. lia.
+Qed.
+
 (* ---- weighted quantile is a convex combination --------------------------------------------- *)
 Local Open Scope Q_scope.
 
